@@ -407,6 +407,7 @@ package httpgrpc
 //@   ensures[C02,C14] non_ok_status_is_returned: called(statFromResponse) && status_code(lastresult(statFromResponse)) != 0 ==> result != nil
 //@   ensures[C02] success_needs_ok_status_and_decoded_body: result == nil ==> called(statFromResponse) && status_code(lastresult(statFromResponse)) == 0 && called("encoding.Codec.Unmarshal") && lastresult("encoding.Codec.Unmarshal") == nil
 //@   assert_call[C01] encoding.Codec.Unmarshal : into_the_callers_response: arg2 == resp
+//@   ensures[C04] a_failed_read_of_the_reply_body_is_never_a_bare_context_error: called("go") && !called("encoding.Codec.Unmarshal") && !(called(setMetadata) && lastresult(setMetadata) != nil) ==> result != context.Canceled && result != context.DeadlineExceeded
 //@   blocking_escape[C05,C04] ctx
 //@   modifies everything
 //
